@@ -357,6 +357,12 @@ theorem diff_replay_root_at (R : List TOp → ρ) (base : Nat) (g : ITree) (evs 
   rw [hrec, hr, e2, treeAt_take n _ (by omega)]
   simpa using this
 
+/-- the preliminary copy of a fast sync never aliases the live identity database: every live prefix height is at most
+the head (0, a snapshot height, or an earlier copy's `head' + 1 ≤ head`), the copy goes to `head + 1` — so dropping the
+copy (a given-up sync) or clearing the replaced database (a completed one) cannot touch the state the node lives on -/
+theorem prelim_prefix_fresh (live head : Nat) (h : live ≤ head) : prelimPrefixHeight head ≠ live := by
+  unfold prelimPrefixHeight; omega
+
 /-- the repaired `validateIdentityState` never panics, whatever a peer serves -/
 theorem validate_no_panic (R : List TOp → ρ) (t : ITree) (h : Nat) (d : Diff) (r : ρ) :
     validateIdentityState true R t h d r ≠ .panic := by
